@@ -9,6 +9,8 @@ import (
 
 	"github.com/relab/gorums"
 	"github.com/relab/gorums/cmd/protoc-gen-gorums/dev"
+	"google.golang.org/protobuf/reflect/protoreflect"
+	"google.golang.org/protobuf/types/known/wrapperspb"
 
 	"verif/mc"
 	"verif/world"
@@ -280,8 +282,9 @@ func owSeqScenario(p owParams) func() {
 			mc.GoLow("cancel", func() { c1.Cancel(context.Canceled) })
 		}
 		mc.Quiesce()
-		untimed := strings.HasSuffix(p.state, "-untimed")
-		switch strings.TrimSuffix(p.state, "-untimed") {
+		burst := strings.HasSuffix(p.state, "-burst")
+		untimed := strings.HasSuffix(strings.TrimSuffix(p.state, "-burst"), "-untimed")
+		switch strings.TrimSuffix(strings.TrimSuffix(p.state, "-burst"), "-untimed") {
 		case "then-reset":
 			for id := 1; id <= n; id++ {
 				w.FW.Reset(world.Addr(id))
@@ -301,7 +304,19 @@ func owSeqScenario(p owParams) func() {
 			settle()
 		}
 		c2 := mk()
-		w.Start(c2)
+		calls := []*world.Call{c1, c2}
+		if burst {
+			// two messages back to back from one goroutine: the second is handed over while the sender
+			// is still busy (re)connecting for the first
+			c3 := mk()
+			calls = append(calls, c3)
+			mc.GoNamed("burst", func() {
+				w.Invoke(c2)
+				w.Invoke(c3)
+			})
+		} else {
+			w.Start(c2)
+		}
 		if p.state == "reset-during-second" || p.state == "restart-during-second" {
 			// the fault strikes at an instant of the explorer's choosing while the second call is under way
 			mc.GoLow("fault", func() {
@@ -316,7 +331,7 @@ func owSeqScenario(p owParams) func() {
 			})
 		}
 		settle()
-		for i, c := range []*world.Call{c1, c2} {
+		for i, c := range calls {
 			for id := 1; id <= n; id++ {
 				e := w.Entered(id, c.Tok)
 				if e > 1 {
@@ -406,8 +421,78 @@ func pnMutateScenario(kind string, n int) func() {
 	}
 }
 
+// pnDeepMutateScenario: as pnMutateScenario, but the per-node function changes the *content* of a bytes
+// field in place (a message with a bytes field whose wire form equals the request's, handed to the library's
+// call entry points directly, as generated code does). A copy that shares the field's storage between the
+// per-node messages makes every node receive the last node's argument and changes the caller's request.
+func pnDeepMutateScenario(kind string, n int) func() {
+	return func() {
+		w := world.New(world.Opts{N: n})
+		if w.Cfg == nil {
+			return
+		}
+		w.Handle = func(h *world.HCtx) world.Reply { return world.Reply{} }
+		const tok = 77
+		req := &wrapperspb.BytesValue{Value: []byte(fmt.Sprintf("t%d/n0", tok))}
+		orig := string(req.Value)
+		f := func(m protoreflect.ProtoMessage, id uint32) protoreflect.ProtoMessage {
+			b := m.(*wrapperspb.BytesValue)
+			b.Value[len(b.Value)-1] = byte('0' + id)
+			return b
+		}
+		raw := w.Cfg.RawConfiguration
+		done := false
+		mc.GoNamed("caller", func() {
+			switch kind {
+			case "QuorumCall":
+				raw.QuorumCall(context.Background(), gorums.QuorumCallData{Message: req, Method: "dev.ZorumsService.QuorumCallPerNodeArg", PerNodeArgFn: f,
+					QuorumFunction: func(_ protoreflect.ProtoMessage, r map[uint32]protoreflect.ProtoMessage) (protoreflect.ProtoMessage, bool) {
+						return nil, len(r) >= n
+					}})
+			case "AsyncCall":
+				raw.AsyncCall(context.Background(), gorums.QuorumCallData{Message: req, Method: "dev.ZorumsService.QuorumCallAsyncPerNodeArg", PerNodeArgFn: f,
+					QuorumFunction: func(_ protoreflect.ProtoMessage, r map[uint32]protoreflect.ProtoMessage) (protoreflect.ProtoMessage, bool) {
+						return nil, len(r) >= n
+					}})
+			case "CorrectableCall":
+				raw.CorrectableCall(context.Background(), gorums.CorrectableCallData{Message: req, Method: "dev.ZorumsService.CorrectablePerNodeArg", PerNodeArgFn: f,
+					QuorumFunction: func(_ protoreflect.ProtoMessage, r map[uint32]protoreflect.ProtoMessage) (protoreflect.ProtoMessage, int, bool) {
+						return nil, len(r), len(r) >= n
+					}})
+			case "Multicast":
+				raw.Multicast(context.Background(), gorums.QuorumCallData{Message: req, Method: "dev.ZorumsService.MulticastPerNodeArg", PerNodeArgFn: f})
+			}
+			done = true
+		})
+		mc.Quiesce()
+		name, key := fmt.Sprintf("pernode/raw-%s/n=%d/function-changes-a-bytes-field-in-place", kind, n), kind+"/in-place-bytes"
+		if !done && kind != "AsyncCall" && kind != "CorrectableCall" {
+			fail("C06/call-stuck", key, "%s: the call has not returned although every node answered", name)
+		}
+		for id := 1; id <= n; id++ {
+			want := fmt.Sprintf("t%d/n%d", tok, id)
+			var got []string
+			for _, e := range w.EventsOf("enter", id) {
+				got = append(got, e.Payload)
+			}
+			if len(got) != 1 || got[0] != want {
+				fail("C06/payload", key, "%s: node %d received %q, expected exactly %q (the per-node function is documented to receive a copy of the request)", name, id, got, want)
+			}
+		}
+		if string(req.Value) != orig {
+			fail("C06/request-modified", key, "%s: the caller's request was changed to %q by the per-node function, which is documented to receive a copy", name, req.Value)
+		}
+		mc.Outcome("ok")
+	}
+}
+
 func c06Instances(tier string) []Instance {
 	var out []Instance
+	for _, kind := range []string{"QuorumCall", "AsyncCall", "CorrectableCall", "Multicast"} {
+		for n := 2; n <= 3; n++ {
+			out = append(out, Instance{Name: fmt.Sprintf("pernode/raw-%s/n=%d/function-changes-a-bytes-field-in-place", kind, n), Bound: 1, Root: pnDeepMutateScenario(kind, n)})
+		}
+	}
 	for _, kind := range []string{"MulticastPerNodeArg", "QuorumCallPerNodeArg", "QuorumCallAsyncPerNodeArg", "CorrectablePerNodeArg"} {
 		for n := 2; n <= 3; n++ {
 			out = append(out, Instance{Name: fmt.Sprintf("pernode/%s/n=%d/function-changes-its-argument-in-place", kind, n), Bound: 1, Root: pnMutateScenario(kind, n)})
@@ -458,7 +543,7 @@ func c06Instances(tier string) []Instance {
 	}
 	for _, kind := range []string{"Unicast", "Multicast", "MulticastPerNodeArg"} {
 		for _, nsw := range []bool{false, true} {
-			for _, st := range []string{"then-nothing", "then-reset", "then-restart", "then-reset-untimed", "then-restart-untimed", "reset-during-second", "restart-during-second", "first-pre-cancelled", "first-cancelled-during"} {
+			for _, st := range []string{"then-nothing", "then-reset", "then-restart", "then-reset-untimed", "then-restart-untimed", "then-nothing-burst", "then-reset-untimed-burst", "then-restart-untimed-burst", "then-restart-burst", "reset-during-second", "restart-during-second", "first-pre-cancelled", "first-cancelled-during"} {
 				p := owParams{kind: kind, nsw: nsw, state: st}
 				b := 1
 				if thorough(tier) {
@@ -473,7 +558,7 @@ func c06Instances(tier string) []Instance {
 
 func init() {
 	register(&Check{ID: "C06",
-		Rule:        "(a) n in 1..3 x every skip subset of the per-node function (node-distinct payloads) x 9 call variants that take one + 6 plain variants x threshold {targeted, targeted+1}: each server's received payload (also when the per-node function gives a node a valid all-default message), delivery count and the call's completion / counts are compared with f(request, i); (b) unicast / multicast variants x send-waiting on/off x node state {idle, handlers blocked forever, endpoints down, transport window full with earlier messages}: the call must have returned at the first quiescent point without any handler returning (and, with no-send-waiting, without the connection); (c) two one-way calls with {nothing, a stream reset, a crash and restart of every node - each also without any back-off timer expiring afterwards} while the client is idle in between - or striking as an adversary thread during the second call, or the first call's context ending before / during it -, back-off timers fired to a horizon of 4 rounds: every message is handled at most once, and exactly once when the call reported no error; all schedules within the deviation bound; an outcome is (instance, returned, deliveries)",
+		Rule:        "(a) n in 1..3 x every skip subset of the per-node function (node-distinct payloads) x 9 call variants that take one + 6 plain variants x threshold {targeted, targeted+1}: each server's received payload (also when the per-node function gives a node a valid all-default message, changes its argument in place, or changes the content of a bytes field of its argument in place), delivery count and the call's completion / counts are compared with f(request, i); (b) unicast / multicast variants x send-waiting on/off x node state {idle, handlers blocked forever, endpoints down, transport window full with earlier messages}: the call must have returned at the first quiescent point without any handler returning (and, with no-send-waiting, without the connection); (c) two one-way calls with {nothing, a stream reset, a crash and restart of every node - each also without any back-off timer expiring afterwards, and with two messages sent back to back by one goroutine afterwards} while the client is idle in between - or striking as an adversary thread during the second call, or the first call's context ending before / during it -, back-off timers fired to a horizon of 4 rounds: every message is handled at most once, and exactly once when the call reported no error; all schedules within the deviation bound; an outcome is (instance, returned, deliveries)",
 		Gen:         c06Instances,
 		Assumptions: []string{"'without waiting' is decided untimed: at quiescence, before any gate is opened or timer fired", "transport is the fakegrpc model with window 1 for the one-way family"},
 	})
